@@ -495,3 +495,13 @@ Definition char_ci_cmp (o : cmpop) : M vcell := char_comp (chr_ci_comp o).
    a three-parameter lambda; the arity check is the VM's *)
 Definition substring (nargs : N) : M vcell :=
   if nargs =? 3 then string_copy else fail E_OTHER.
+
+(* the CALL of a builtin (run.rs): the arguments are pushed left to right, then argc,
+   and control passes to the Rust function *)
+Fixpoint push_all (l : list vcell) : M unit :=
+  match l with
+  | [] => ret tt
+  | v :: r => dom _ <- push v; push_all r
+  end.
+Definition run_builtin (f : M vcell) (args : list vcell) : M vcell :=
+  dom _ <- push_all args; dom _ <- push (VArgc (len args)); f.
